@@ -23,6 +23,11 @@ for f in sorted(glob.glob(os.path.join(HERE, "checks", "c*.manifest.json"))):
     pid = os.path.basename(f).split(".")[0].upper()
     CHECKS[pid] = json.load(open(f))
 
+# checks whose files exist but which are still being built / do not yet pass on the unchanged tree
+HOLD = ["C07"]
+for pid in HOLD:
+    CHECKS.pop(pid, None)
+
 def main():
     props = [json.loads(l) for l in open(os.path.join(HERE, "properties.jsonl"))]
     checks = []
@@ -65,7 +70,7 @@ def main():
     }
     json.dump(m, open(os.path.join(HERE, "MANIFEST.json"), "w"), indent=1)
 
-HOOK_COMMITS = ["36bce13", "6fcc21e"]
+HOOK_COMMITS = ["36bce13", "6fcc21e", "c2c0393"]
 
 if __name__ == "__main__":
     main()
